@@ -26,6 +26,7 @@ def run(ctx: RuleContext, p: Program) -> None:
     ctx.try_rule(T.rule_ts_gate, ts, 'TS-GATE')
     from . import storeforms
     ctx.try_rule(storeforms.rule_nav_form, ts, 'NAV-FORM')
+    ctx.try_rule(storeforms.rule_build_part, ts, 'BUILD-PART')
     ctx.not_decided += ['arithmetic of get_prev/get_next/iter/get_index/get_position',
                         'split / merge thresholds', 'agreement with a reference list over operation histories']
     ctx.assumptions += ['_update_block_indexes(k) re-indexes blocks k.. (its loop shape is checked, its argument is not)',
